@@ -311,6 +311,13 @@ def check_methods(case):
         for x in assignments(labels, mspin):
             xc = x if mspin == rspin else (s2b(x) if mspin else b2s(x))
             y = {mapping[l]: v for l, v in xc.items()}
+            if case.get("how") == "declared":
+                # convert_solution undoes the relabelling also when the declared enumeration has gaps
+                back = M.convert_solution(dict(y), spin=rspin)
+                want_x = x if mspin == rspin else xc
+                if back != {l: (want_x if mspin == rspin else x)[l] for l in labels} and back != x:
+                    return Fail("%s: convert_solution(%r, spin=%r) = %r, expected %r (mapping %r)"
+                                % (t, y, rspin, back, x, mapping), key="convert-declared-gaps")
             a, b = peval(src, x), peval(Rd, y)
             if not close(a, b):
                 return Fail("%s.%s(): value differs at %r: model %r, result %r; mapping %r result %r"
